@@ -269,6 +269,14 @@ def run_property(chk, prop, note=None):
         good = bool(gres) and gres.get(tname) == "Closed under the global context"
         chk.oblige("granularity: " + tname + " (cache operations are atomic under the cache mutex; Gen/Access.v)", good)
         gran_ok = gran_ok and good
+    # The decision logic of the modelled functions (if/for conditions, boolean
+    # returns of session.go and cache.go outside the codecs) is what the model
+    # was written against: Gen/SessShape.v, regenerated on every run, equals the
+    # pinned copy.
+    sok, slog, _ = vlib.coq_build(["Properties/Shape"])
+    sres = vlib.print_assumptions("Properties.Shape", ["sess_shape_pinned"])[0] if sok else None
+    shape_ok = bool(sres) and sres.get("sess_shape_pinned") == "Closed under the global context"
+    chk.oblige("shape: sess_shape_pinned (conditions of the modelled functions equal those the model was written against; Gen/SessShape.v)", shape_ok)
     b = bundle(chk.tier, chk.seed)
     if "harness_failed" in b:
         chk.oblige("harness builds against the current tree", False)
@@ -367,6 +375,17 @@ def run_property(chk, prop, note=None):
     elif nviol == 0 and not proof_ok:
         chk.violation({"property": prop, "no_longer_checks": "theorems of Properties/%s.v" % prop,
                        "obligations": chk.obligations, "log": plog[-3000:]}, no_input=True)
+    elif nviol == 0 and not shape_ok:
+        diff = ""
+        try:
+            gen = open(os.path.join(vlib.COQ, "Gen", "SessShape.v")).read().split("\n")
+            pin = open(os.path.join(vlib.COQ, "Proofs", "ShapePinned.v")).read().split("\n")
+            import difflib
+            diff = "\n".join(l for l in difflib.unified_diff(pin, gen, "pinned", "current source", lineterm="", n=0) if l[:1] in "+-")[:2500]
+        except OSError:
+            pass
+        chk.violation({"property": prop, "no_longer_checks": "Properties/Shape.v: sess_shape_pinned - a condition of a modelled function of session.go/cache.go differs from the one Model/Sess.v was written against; the histories explored show no failure of %s" % prop,
+                       "changed_conditions": diff, "log": slog[-1500:]}, no_input=True)
     elif nviol == 0 and not gran_ok:
         chk.violation({"property": prop, "no_longer_checks": "Properties/Granularity.v: cache_ops_atomic over the regenerated Gen/Access.v - a persistence call inside a cache operation is no longer made under the cache mutex, so the request-granularity model (and every theorem about it) no longer covers concurrent requests; the request-granularity histories explored show no failure",
                        "log": glog[-2500:]}, no_input=True)
